@@ -9,7 +9,7 @@ hooks = subprocess.run(["git", "-C", "/repo", "log", "--format=%h %s"], capture_
 hook_commits = [l.split()[0] for l in hooks if l.split(" ", 1)[1].startswith("verif hook")][::-1]
 
 P = {
- "C01": ("stateless exploration of the real parser over symbol trees, positional sweeps, scanner grids and size families, with guard pages, armed debug assertions, catch_unwind, crash journal and watchdog",
+ "C01": ("stateless exploration of the real parser over symbol trees, positional sweeps, scanner grids and size families, with guard pages, hostile in-class surroundings, armed debug assertions, catch_unwind, crash journal and watchdog; valgrind memcheck as a byte-granular bounds monitor on an enumerated corpus of exact-size heap buffers",
          "Every enumerated input (all strings over class alphabets to a depth after resume contexts, all 256 byte values at every template position and lane phase, scanner grids, adversarial sizes to 64 KiB quick / 1 MiB thorough) is run through every entry point with the buffer flush against PROT_NONE pages, in a debug-assertion build and a release build, for every header-option set and capacities 0/1/2/16. A crash, hang, panic or out-of-range result is recovered from the journal and replayed.",
          "Trusted: the guard-page arena and journal of the harness; reads that stay inside the buffer are C12/C04's business; NEON only through emulation; sizes between the explored ones by the single-pass structure."),
  "C02": ("parent/child relation on every edge of the symbol trees and every split point of every template mutant; stateright graph of all delivery histories",
@@ -45,7 +45,7 @@ P = {
  "C12": ("scanner grids: 5 backends x 3 classes x length 0..100 x position x 256 values x fillers x placements, pairs of offending positions, boundary alphabet ^8; NEON source compiled against an intrinsic emulation",
          "Stop position of every scanner equals the first out-of-class byte per the classes written in the statement, buffers flush against guard pages and at every start alignment.",
          "NEON runs through a 13-intrinsic emulation (trusted); hardware behaviour of real NEON is out of reach on this host."),
- "C13": ("32-point build lattice; per-partition digests of one enumerated corpus across 8 (15) build variants / forced backends / profiles; in-process forced-backend and alignment agreement; loom over the real runtime.rs on simulated CPUs",
+ "C13": ("38-point build lattice (feature switches and whole target CPUs); per-partition digests of one enumerated corpus across 8 (15) build variants / forced backends / profiles, each variant checked to have selected its documented backend; in-process forced-backend agreement and alignment agreement under each backend; loom over the real runtime.rs on four simulated CPUs",
          "Configurations enumerated completely; results compared on an enumerated corpus; every interleaving (unbounded preemptions) of 2-4 threads' first calls through the backend cache explored on CPUs with avx2, sse4.2 only, neither.",
          "loom's C11 model; scanner stubs under loom; cold-start races of free-running processes are not used (sampling)."),
  "C14": ("product of the header-block symbol tree under all 16 response and 4 request option sets with the parameterised reference transducer; option templates under every option subset",
@@ -54,20 +54,20 @@ P = {
  "C15": ("metamorphic relation on every default-Complete node x 128 configs, and on every node x own-kind config x every other-kind option subset",
          "Model-free equality of full results (sole exception: reason with leading spaces stripped under the response multi-space option).",
          "Bounded depth; template mutants add real-looking messages."),
- "C16": ("pairwise equality of all entry points of a kind on every node of the trees and template mutants; parse_headers in lock-step with request and response heads",
+ "C16": ("pairwise equality of all entry points of a kind on every node of the trees and template mutants; parse_headers in lock-step with request and response heads (CRLF and LF start lines); stateright histories: initialised-array and uninit entry points agree on re-used values",
          "4 request and 4 response entry points x configs x capacities 0/1/3; parse_headers(w) against heads ending in w with shifted offsets.",
          "Model-free."),
- "C17": ("sentinel/poison prefilled arrays inspected as raw words after every call; capacities 0..4(7) against capacity 16 on every node; stateright histories for the restore invariant",
+ "C17": ("sentinel/poison prefilled arrays inspected as raw words after every call; capacities 0..4(7) against capacity 16 on every node; header-count sweep 0..24 (72) lines against capacities around the count; size families; stateright histories for the restore invariant",
          "Count, ranges, untouched slots, restore after Partial/Err, no exposed uninitialised slot, TooManyHeaders exactly when the model completes header N+1.",
          "Header layout assumed to be 4 words (checked at compile time)."),
- "C18": ("stateright exploration of all histories of <=3 (4) earlier calls from 51 (68) operations per message kind, capacities 0..3, on the real parser; canonicalised by snapshot and cross-checked un-canonicalised",
+ "C18": ("stateright exploration of all histories of <=3 (4) earlier calls from 60 (80) operations per message kind (and 13 parse_headers operations on one re-used array), capacities 0..3, on the real parser; canonicalised by snapshot and cross-checked un-canonicalised",
          "Every reachable snapshot x every probe: probe on the reused value equals the probe on a fresh value of the current headers length, and of the original array while no call has returned Complete.",
          "Snapshot = everything a later call can read (argued in DESIGN.md S4)."),
- "C19": ("allocator-call delta around every call on every explored node; no_std lattice points; -Zbuild-std=core build for a target without std/alloc",
+ "C19": ("allocator-call delta around every call on every explored node, repeated with every environment variable the sources read set; no_std lattice points incl. whole target CPUs; -Zbuild-std=core build for a target without std/alloc",
          "Counting global allocator, per-thread counter; all outcomes and entry points; build legs enumerate the feature sets.",
          "Allocation inside the kernel/libc is invisible; none is expected."),
- "C20": ("cursor-operation counters on every explored node and on 36 size families to 64 KiB (1 MiB); doubling test; instruction counts under cachegrind at three sizes",
-         "One cursor per call, forward only, travel <= len, operations <= 16 len + 128; increments between N/2N/4N at most 2.2x (cursor ops) and 3.0x (instructions).",
+ "C20": ("cursor-operation counters on every explored node and on 42 size families to 64 KiB (1 MiB); doubling test; instructions inside the parse call (callgrind toggle-collect) at three sizes for complete, unterminated and erroneous inputs",
+         "One cursor per call, forward only, travel <= len, operations <= 16 len + 128; increments between N/2N/4N at most 2.2x (cursor ops) and 2.5x (instructions inside the parse call).",
          "Thresholds separate linear from quadratic growth; they are not tight constants."),
 }
 
